@@ -21,6 +21,9 @@
 // Modes: (none) mixed programs; io: mailbox / audio / paging / DMA programs with host traffic; dma: only DMA programs
 // (kind 10: AHBM channel configuration and DMA channels programmed through the MMIO window, transfers DSP<->DSP,
 // DSP<->external, external<->external in 16-bit and double-word mode, irq 15 through the ICU); page; loops; step.
+// Program modes (--mode): default (interrupts, timers, loops, calls; one program in three of the io kind), step, loops, io
+// (mailboxes, audio, MIU, DMA mixed), audio, irq, page, dma.  Now and then the host calls Teakra::Reset between two
+// slices and loads the program again.
 // The same program is then run again on a fresh instance with a different slicing (and in one piece):
 // the specification has no fast-forward at all, so accepting all of them is C06.
 #include <map>
@@ -255,7 +258,9 @@ static void emit_dma_body(Prog& p, vh::Rng& rng) {
 }
 
 // a random program exercising interrupts, timers, the ICU, idle loops, calls and hardware loops
-static Prog make_program(vh::Rng& rng, std::string& descr, bool io, int force_kind = -1) {
+// flavour: 0 general, 1 audio (queues filled before/after enabling, both ports), 2 irq (timers always running with short
+// auto-restart periods, line and vectored routing, masks mostly open: many interrupt deliveries per program)
+static Prog make_program(vh::Rng& rng, std::string& descr, bool io, int force_kind = -1, int flavour = 0) {
     Prog p;
     const u32 MAIN = 0x0100, SUB = 0x0300, VEC = 0x0400;
     p.org(0); p.br(MAIN);
@@ -316,7 +321,7 @@ static Prog make_program(vh::Rng& rng, std::string& descr, bool io, int force_ki
     std::vector<unsigned> irqs = {10u, 9u, 14u, 3u, 11u};
     if (dmak) irqs.push_back(15u);
     for (unsigned irq : irqs) {
-        unsigned c = rng.below(6);
+        unsigned c = flavour == 2 ? (rng.chance(1, 2) ? 3 : rng.below(3)) : rng.below(6);
         if (c < 3) en[c] |= 1u << irq;
         else if (c == 3) ven |= 1u << irq;
         else if (c == 4) { en[rng.below(3)] |= 1u << irq; ven |= 1u << irq; }
@@ -330,21 +335,27 @@ static Prog make_program(vh::Rng& rng, std::string& descr, bool io, int force_ki
     // timers
     static const u32 starts[] = {0, 1, 2, 3, 5, 7, 12, 20, 33, 64, 200, 0x10000, 0x10003};
     for (int i = 0; i < 2; ++i) {
-        if (rng.chance(1, 4)) continue;
-        u32 st = starts[rng.below(sizeof(starts) / sizeof(starts[0]))];
+        if (flavour != 2 && rng.chance(1, 4)) continue;
+        static const u32 shorts[] = {2, 3, 5, 7, 12, 20};
+        u32 st = flavour == 2 ? shorts[rng.below(6)] : starts[rng.below(sizeof(starts) / sizeof(starts[0]))];
         p.mmio_write(0x24 + 0x10 * i, st & 0xFFFF);
         p.mmio_write(0x26 + 0x10 * i, st >> 16);
-        unsigned mode = rng.below(4);
-        u16 cfg = (mode << 2) | (rng.chance(1, 8) ? 0x100 : 0) | (rng.chance(2, 3) ? 0x200 : 0) | (rng.chance(4, 5) ? 0x400 : 0);
+        unsigned mode = flavour == 2 && rng.chance(2, 3) ? 1 : rng.below(4);
+        u16 cfg = (mode << 2) | (flavour != 2 && rng.chance(1, 8) ? 0x100 : 0) | (rng.chance(2, 3) ? 0x200 : 0) | (flavour == 2 || rng.chance(4, 5) ? 0x400 : 0);
         p.mmio_write(0x20 + 0x10 * i, cfg);
         if (mode == 3 && rng.chance(1, 2)) p.mmio_write(0x22 + 0x10 * i, 1);
     }
+    u16 late_en[2] = {0, 0};      // port enabled as the very last thing before the main loop (the queue is still as filled)
     if (io) {   // audio ports and mailbox configuration
         for (int i = 0; i < 2; ++i) {
-            if (rng.chance(1, i ? 4 : 1)) p.mmio_write(0x2BE + 0x80 * i, rng.chance(1, 4) ? 0x8000 : 1);
+            // the port is enabled before the queue is filled (it drains while being filled) or after (it starts full);
             // port 0: exactly full (16 words), over-full and partly filled queues all occur often
-            for (unsigned k = 0, n = i ? rng.below(3) : rng.chance(1, 3) ? 16 : rng.chance(1, 5) ? 17 + rng.below(3) : rng.below(16); k < n; ++k)
+            bool on = rng.chance(1, i ? (flavour == 1 ? 2 : 4) : 1), late = rng.chance(flavour == 1 ? 3 : 1, flavour == 1 ? 4 : 2);
+            u16 env = rng.chance(1, 4) ? 0x8000 : 1;
+            if (on && !late) p.mmio_write(0x2BE + 0x80 * i, env);
+            for (unsigned k = 0, n = i ? rng.below(flavour == 1 ? 18 : 3) : rng.chance(flavour == 1 ? 2 : 1, flavour == 1 ? 4 : 3) ? 16 : rng.chance(1, 5) ? 17 + rng.below(3) : rng.below(16); k < n; ++k)
                 p.mmio_write(0x2C6 + 0x80 * i, rng.u16());
+            if (on && late) { if (rng.chance(1, flavour == 1 ? 4 : 2)) p.mmio_write(0x2BE + 0x80 * i, env); else late_en[i] = env; }
             if (rng.chance(1, 4)) p.mmio_write(0x2A2 + 0x80 * i, rng.u16());
             if (rng.chance(1, 4)) p.mmio_write(0x2C2 + 0x80 * i, rng.u16());
         }
@@ -354,10 +365,11 @@ static Prog make_program(vh::Rng& rng, std::string& descr, bool io, int force_ki
         if (rng.chance(1, 4)) p.mmio_write(0xD6 + 2 * rng.below(2), rng.u16());
     }
     // interrupt masks: mod3 = crep|cpc|ccnta defaults, im bits, ic bits, ie
-    u16 mod3 = 0xE000 | (rng.below(16) << 8) | (rng.chance(4, 5) ? 0x80 : 0);
+    u16 mod3 = 0xE000 | ((flavour == 2 && rng.chance(7, 8) ? 15 : rng.below(16)) << 8) | (flavour == 2 || rng.chance(4, 5) ? 0x80 : 0);
     for (int i = 0; i < 3; ++i) if (use_ctx[i]) mod3 |= 1u << (1 + i);
     p.mov_imm_sttmod(mod3, 7);
     if (rng.chance(1, 3)) p.mmio_write(0x204, 1u << 3);         // software trigger
+    for (int i = 0; i < 2; ++i) if (late_en[i]) p.mmio_write(0x2BE + 0x80 * i, late_en[i]);
     // body
     unsigned kind = force_kind >= 0 ? (unsigned)force_kind : dmak ? 10 : io ? 6 + rng.below(4) : rng.below(6);
     descr = "kind" + std::to_string(kind);
@@ -650,7 +662,9 @@ int main(int argc, char** argv) {
     for (long pi = 0; pi < programs; ++pi) {
         std::string descr;
         bool io = a.mode == "io" || a.mode == "page" || a.mode == "dma" || a.mode == "audio" || (a.mode != "loops" && rng.chance(1, 3));
-        Prog prog = a.mode == "loops" ? make_loop_program(rng, descr) : make_program(rng, descr, io, a.mode == "page" ? 9 : a.mode == "dma" ? 10 : a.mode == "audio" ? (rng.chance(2, 3) ? 7 : 6) : -1);
+        Prog prog = a.mode == "loops" ? make_loop_program(rng, descr) : make_program(rng, descr, io, a.mode == "page" ? 9 : a.mode == "dma" ? 10 : a.mode == "audio" ? (rng.chance(2, 3) ? 7 : 6) :
+                                                                                      a.mode == "irq" ? (rng.chance(1, 2) ? 0 : 2) : -1,
+                                                                                      a.mode == "audio" ? 1 : a.mode == "irq" ? 2 : 0);
         const bool dmaprog = descr == "kind10";
         // the audio transmit period has no register (4096 cycles after reset): shorten it so that frames, the
         // empty interrupt and queue refills happen within the budget; the New line carries the value
@@ -663,6 +677,9 @@ int main(int argc, char** argv) {
         slicings.push_back({total});
         { std::vector<unsigned> s; unsigned left = total; while (left) { unsigned n = 1 + rng.below(rng.chance(1, 2) ? 3 : 40); if (n > left) n = left; s.push_back(n); left -= n; } slicings.push_back(s); }
         { std::vector<unsigned> s; unsigned left = total; unsigned ones = std::min<unsigned>(left, 20 + rng.below(80)); for (unsigned i = 0; i < ones; ++i) s.push_back(1); left -= ones; while (left) { unsigned n = 1 + rng.below(200); if (n > left) n = left; s.push_back(n); left -= n; } slicings.push_back(s); }
+        if (a.mode == "irq" || a.mode == "audio") {   // a fourth slicing of short slices only (2..5 cycles): a slice boundary every few cycles
+            std::vector<unsigned> s; unsigned left = total; while (left) { unsigned n = 2 + rng.below(4); if (n > left) n = left; s.push_back(n); left -= n; } slicings.push_back(s);
+        }
         if (a.mode == "step") {   // every instruction boundary observed (C07): single steps only, for a bounded budget
             total = std::min<unsigned>(total, 260);
             slicings.clear();
@@ -752,7 +769,8 @@ int main(int argc, char** argv) {
                                                 static const u32 e[] = {0, 1, 2, 3, 0xFFFFFFFF, 0xFFFFFFFE, 0xFFFFFFFC, 0x20000000, 0x7FFFFFFF, 0x80000001, 0xFFFF, 0x1FFFE};
                                                 return hrng.chance(2, 3) ? e[hrng.below(sizeof(e) / sizeof(e[0]))] : (u32)hrng.next(); };
                     const char* hout = "ok";
-                    std::string op = dmaop ? dops[hrng.below(sizeof(dops) / sizeof(dops[0]))] : ops[hrng.below(sizeof(ops) / sizeof(ops[0]))];
+                    // now and then the host resets the machine (and loads the program again: Reset clears the memory)
+                    std::string op = hrng.chance(1, 30) ? "Reset" : dmaop ? dops[hrng.below(sizeof(dops) / sizeof(dops[0]))] : ops[hrng.below(sizeof(ops) / sizeof(ops[0]))];
                     unsigned ha = 0, hb = 0; long ret = 0;
                     u32 xa = 0, xv = 0;               // AHBM accessors: 32-bit address / value, logged as [hi, lo]
                     in.log.written.clear();
@@ -764,6 +782,7 @@ int main(int argc, char** argv) {
                     else if (op == "ClearSemaphore") { ha = hrng.chance(1, 2) ? 0xFFFF : hrng.u16(); in.t->ClearSemaphore(ha); }
                     else if (op == "MaskSemaphore") { ha = hrng.chance(1, 2) ? 0 : hrng.u16(); in.t->MaskSemaphore(ha); }
                     else if (op == "GetSemaphore") { ret = in.t->GetSemaphore(); }
+                    else if (op == "Reset") { in.t->Reset(); }
                     else if (op == "PeekRecvData") { ha = hrng.below(3); ret = in.t->PeekRecvData(ha); }
                     else if (op == "AHBMRead16") { xa = xaddr(); ret = in.t->AHBMRead16(xa); }
                     else if (op == "AHBMRead32") { xa = xaddr(); ret = in.t->AHBMRead32(xa); }
@@ -800,6 +819,10 @@ int main(int argc, char** argv) {
                     o.raw("wr", hw + "]"); o.str("out", hout);
                     o.end();
                     if (dead) break;
+                    if (op == "Reset") {
+                        for (auto& kv : prog.words) in.t->ProgramWrite(kv.first, kv.second);
+                        o.begin(); o.str("e", "Load"); o.raw("w", lw + "]"); o.end();
+                    }
                 }
             }
             verif_mem_observer = nullptr;
